@@ -74,6 +74,8 @@ void qs_hook_load(void *p, int order, const char *fn)
 	if (p == (void *)&D._qs_counter) {
 		if (s == S_RUN)
 			__CPROVER_assert(ACQ(order), "order: run() reads the period counter that releases callbacks with at least acquire");
+		if (s == S_ONLINE || s == S_OFFLINE)
+			__CPROVER_assert(g_held, "guarded-by: online()/offline() read the period counter inside the critical section in which they change the agent count (the period cannot close in between)");
 		if (s == S_BARRIER) {
 			/* the first read computes the target; every later one decides whether quiescent_barrier() may return */
 			if (g_barrier_loads++ > 0)
